@@ -226,8 +226,9 @@ Fixpoint ceval (w : world) (d : cterm) : result coll :=
   | CNbhd c ic =>
       match zassoc c (w_conn w) with
       | None => Err E_NOSUCH
-      | Some ns =>       (* dict {neighbor: ...}, then neighborhood[self] = ... : keys in first-insertion order *)
-          Ok {| members := dedup_z (if ic then ns ++ [c] else ns); gen := w_sgen w |}
+      | Some ns =>       (* dict {neighbor: ...} in first-insertion order; then (as repaired by "apply include_center
+                            uniformly"): if include_center: neighborhood[self] = ... else: neighborhood.pop(self, None) *)
+          Ok {| members := if ic then dedup_z (ns ++ [c]) else remove_key Z.eqb c (dedup_z ns); gen := w_sgen w |}
       end
   | CSelect d only_empty n =>
       match ceval w d with
